@@ -65,16 +65,18 @@ Definition k_match (a : algo) (d k : Z) (ws tx : list Z) (pre : list cycle) (st 
   let '(t, cs) := match_cycles a d k ws tx pre st gaps in
   t ++ k_hw a d cs ++ [1].
 
-(* the same run with the verdict computed from the MODEL's final match_detected (what the faithful model does;
-   differs from k_match exactly on the inputs of finding C16-even-polynomial-false-match) *)
-Definition k_match_faithful (a : algo) (d k : Z) (ws tx : list Z) (pre : list cycle) (st : Z) (gaps : list Z) : list Z :=
-  let '(t, cs) := match_cycles a d k ws tx pre st gaps in
-  let final := hw_match a (hw_run a d cs) in
-  t ++ k_hw a d cs ++ [b2l (Bool.eqb final (forallb (fun x => x =? 0) tx))].
-
 (* Processor(parameters).__init__: signal widths, the initial-value constant, the stored residue and matrices *)
 Definition k_proc (a : algo) (d : Z) : list Z :=
   [cw a; d; 1; 1; 1; init a; cw a; residue a] ++ k_matrices a d.
 
 (* TypeError of Processor(non-Parameters) / operator.index(non-int) *)
 Definition k_typeerr : list Z := [-3].
+
+(* Layer B for the Processor: the RTLIL document emitted by the real backend for a Processor (read back by
+   harness/rtlil_read.py) is run under Model/RtlilSem.v (the RTLIL semantics of C04) on the stimulus
+   "set start/valid/data; clk = 1; clk = 0" per cycle; one row (status, crc, match_detected) per settle.
+   The observed side is the real simulator's trace of the same Processor. *)
+From V.Model Require Export RtlilSem.
+Definition k_rtl (d : doc) (obs : list (option (list nat * nat * Z))) (init_ins : list (nat * Z))
+                 (stim : list (list (nat * Z))) : list Z :=
+  run d obs init_ins stim.
